@@ -230,7 +230,151 @@ func (c *Ctx) DeadObligations(scope []*ssa.Function, what string) {
 		for i, r := range decidedBranches(fn) {
 			c.Fail("R-DEAD", short(FuncName(fn)), fmt.Sprintf("no guard tests a field that was just set to a constant (#%d)", i+1), w.InstrPos(r.In), r.What)
 		}
+		for i, r := range selfComparisons(fn) {
+			c.Fail("R-DEAD", short(FuncName(fn)), fmt.Sprintf("no comparison has the same expression on both sides (#%d)", i+1), w.InstrPos(r.In), r.What)
+		}
+		for i, r := range crossAppends(fn) {
+			c.Fail("R-DEAD", short(FuncName(fn)), fmt.Sprintf("no list field is rebuilt from a sibling field of the same object (#%d)", i+1), w.InstrPos(r.In), r.What)
+		}
 	}
 	c.Sites++
-	c.OK("R-DEAD", what, "local structs searched for lost writes and decided guards", "-", fmt.Sprintf("%d functions", len(scope)))
+	c.OK("R-DEAD", what, "searched for lost writes, decided guards, self-comparisons and cross-field appends", "-", fmt.Sprintf("%d functions", len(scope)))
+}
+
+// selfComparisons: a comparison whose two operands are the same expression (x != x, len(a.f) != len(a.f)) decides
+// nothing; it is what a copy-and-paste slip in a field-by-field comparison leaves behind. Floating-point operands
+// are exempt (x != x is the NaN test).
+func selfComparisons(fn *ssa.Function) []deadReport {
+	var out []deadReport
+	for _, b := range fn.Blocks {
+		for _, in := range b.Instrs {
+			bo, ok := in.(*ssa.BinOp)
+			if !ok {
+				continue
+			}
+			switch bo.Op {
+			case token.EQL, token.NEQ, token.LSS, token.LEQ, token.GTR, token.GEQ:
+			default:
+				continue
+			}
+			if _, isC := bo.X.(*ssa.Const); isC {
+				continue
+			}
+			if bt, ok := bo.X.Type().Underlying().(*types.Basic); ok && bt.Info()&(types.IsFloat|types.IsComplex) != 0 {
+				continue
+			}
+			ex, ey := Expr(bo.X), Expr(bo.Y)
+			if ex != ey || ex == "" {
+				continue
+			}
+			// two reads of the same location with a write in between are different values: require both operands to be
+			// computed in the block of the comparison with no store or call between them
+			if !pureBetween(bo.X, bo.Y, bo) {
+				continue
+			}
+			out = append(out, deadReport{bo, "both operands are " + ex})
+		}
+	}
+	return out
+}
+
+func pureBetween(x, y ssa.Value, at *ssa.BinOp) bool {
+	xi, ok1 := x.(ssa.Instruction)
+	yi, ok2 := y.(ssa.Instruction)
+	if !ok1 || !ok2 {
+		return x == y
+	}
+	if xi.Block() != at.Block() || yi.Block() != at.Block() {
+		return false
+	}
+	lo, hi := instrIndex(xi), instrIndex(yi)
+	if lo > hi {
+		lo, hi = hi, lo
+	}
+	for _, in := range at.Block().Instrs[lo:hi] {
+		switch t := in.(type) {
+		case *ssa.Store, *ssa.MapUpdate, *ssa.Send:
+			return false
+		case *ssa.Call:
+			if _, isB := t.Call.Value.(*ssa.Builtin); !isB {
+				return false
+			}
+		}
+	}
+	return true
+}
+
+// crossAppends: x.F = append(x.G, ...) (directly or through an in-module helper that appends to its first parameter)
+// with F != G on the same object: the elements of one list end up in another.
+func crossAppends(fn *ssa.Function) []deadReport {
+	var out []deadReport
+	for _, b := range fn.Blocks {
+		for _, in := range b.Instrs {
+			st, ok := in.(*ssa.Store)
+			if !ok {
+				continue
+			}
+			dst, ok := st.Addr.(*ssa.FieldAddr)
+			if !ok {
+				continue
+			}
+			cl, ok := st.Val.(*ssa.Call)
+			if !ok || len(cl.Call.Args) == 0 {
+				continue
+			}
+			appendLike := false
+			if bi, ok := cl.Call.Value.(*ssa.Builtin); ok && bi.Name() == "append" {
+				appendLike = true
+			} else if f := cl.Call.StaticCallee(); f != nil && InModule(f) && len(f.Params) > 0 && appendsToParam0(f) {
+				appendLike = true
+			}
+			if !appendLike {
+				continue
+			}
+			src := cl.Call.Args[0]
+			if sl, ok := src.(*ssa.Slice); ok {
+				src = sl.X
+			}
+			u, ok := src.(*ssa.UnOp)
+			if !ok || u.Op != token.MUL {
+				continue
+			}
+			sfa, ok := u.X.(*ssa.FieldAddr)
+			if !ok || Expr(sfa.X) != Expr(dst.X) || sfa.Field == dst.Field {
+				continue
+			}
+			if typeStr(sfa.Type()) != typeStr(dst.Type()) {
+				continue
+			}
+			out = append(out, deadReport{st, fmt.Sprintf("%s receives append(%s, ...)", fieldName(dst), fieldName(sfa))})
+		}
+	}
+	return out
+}
+
+// appendsToParam0: every result-0 value of f is its first parameter with elements appended (or the parameter itself).
+func appendsToParam0(f *ssa.Function) bool {
+	if len(f.Blocks) == 0 || f.Signature.Results().Len() != 1 {
+		return false
+	}
+	p := f.Params[0]
+	ok := false
+	for _, b := range f.Blocks {
+		rt, isRt := b.Instrs[len(b.Instrs)-1].(*ssa.Return)
+		if !isRt {
+			continue
+		}
+		seen := backClosure(rt.Results[0], nil)
+		if !seen[p] {
+			return false
+		}
+		for v := range seen {
+			if cl, isC := v.(*ssa.Call); isC {
+				if bi, isB := cl.Call.Value.(*ssa.Builtin); isB && bi.Name() == "append" {
+					ok = true
+				}
+			}
+		}
+	}
+	return ok
 }
